@@ -70,7 +70,11 @@ class Stack:
         for spec in device_specs:
             ea = extra_attrs(spec) if extra_attrs else None
             cls = classes.get(spec.get("class_of"))
-            if cls is None:
+            if cls is None and spec.get("subclass_of") in classes:
+                cls = G.build_class(spec, ea, base_cls=classes[spec["subclass_of"]], skip_levels=spec["inherited_levels"])
+                classes[spec["name"]] = cls
+                sim.probe("driver_family_base_and_subclass")
+            elif cls is None:
                 cls = G.build_class(spec, ea)
                 classes[spec["name"]] = cls
             else:
